@@ -277,6 +277,14 @@ impl C19 {
     }
 }
 
+fn gcd(a: usize, b: usize) -> usize {
+    if b == 0 {
+        a
+    } else {
+        gcd(b, a % b)
+    }
+}
+
 impl Driver for C19 {
     fn ncases(&self, ctx: &Ctx) -> u64 {
         (MAXN + 1) * (MAXES + 1) + if ctx.tier == Tier::Thorough { 20_000 } else { 2_000 }
@@ -319,6 +327,29 @@ impl Driver for C19 {
                     self.one(ctx, &c);
                 }
             }
+            return;
+        }
+        // entry counts whose byte extent wraps around 2^32 (to 0 or to a few entries
+        // that would fit): must be rejected like any other count that leaves the tag
+        if ctx.rng.chance(1, 6) {
+            let entsize = *ctx.rng.pick(&[40usize, 64, 64, 8, 16, 24]);
+            let q = (1u64 << 32).div_ceil(entsize as u64) as usize;
+            let n = match ctx.rng.below(4) {
+                0 => q,
+                1 => q + 1,
+                2 => q + ctx.rng.below(4) as usize,
+                _ => {
+                    // exact multiples of 2^32: 40 * 0x2000_0000 = 5 * 2^32
+                    let g = (1usize << 32) / gcd(entsize, 1 << 32);
+                    g * (1 + ctx.rng.below(((u32::MAX as usize) / g) as u64) as usize).min((u32::MAX as usize) / g)
+                }
+            };
+            let n = n.min(u32::MAX as usize);
+            let seclen = entsize * (1 + ctx.rng.below(3) as usize) + *ctx.rng.pick(&[0usize, 4, 8]);
+            let sh = ctx.rng.below(2) as u32;
+            let c = make(&mut ctx.rng, n, entsize, sh, seclen);
+            self.one(ctx, &c);
+            ctx.count("wrapping-entry-count");
             return;
         }
         // random conformant tags with richer contents (both layouts, all type classes)
